@@ -480,6 +480,8 @@ def modelled(R, op):
         return (cname == 'Scalar' and op['arg'] in ('number', 'float') and q.is_float()) or \
                (cname in ('Vector3', 'Pair', 'Matrix') and op['arg'] == 'qube' and q.is_float())
     if k == 'insd' or k == 'insds':
+        if any(q is d for p in R.vars for d in p._derivs_.values()):
+            return False    # giving a stored derivative object derivatives of its own is outside the model
         pairs = [(op['k'], op['d'])] if k == 'insd' else op['kds']
         for kk, dd in pairs:
             if dd >= len(R.vars):
